@@ -104,6 +104,26 @@ func c11Run(p c11Plan) *common.Fail {
 		if got := fromLibLData(l); !sameRLData(got, &want) {
 			return common.Failf("layout-decode-fields", "bytes %x\n decoded  %+v\n expected %+v", ref, *got, want)
 		}
+		// the same layout followed by further octets (a padded datagram, back-to-back records): the length octets decide
+		// what belongs to the frame, the consumed count says where it ends
+		for _, tail := range [][]byte{{0x00}, {0xde, 0xad, 0xbe, 0xef}, bytes.Repeat([]byte{0xff}, 9)} {
+			long := append(append([]byte{}, ref...), tail...)
+			var m2 cemi.Message
+			n2, err := cemi.Unpack(long, &m2)
+			if err != nil {
+				return common.Failf("layout-decode-rejected", "cemi.Unpack rejects the reference layout %x when %d further octets follow it: %v", ref, len(tail), err)
+			}
+			if int(n2) != len(ref) {
+				return common.Failf("layout-decode-length", "cemi.Unpack consumed %d octets of the %d-octet layout %x followed by %x", n2, len(ref), ref, tail)
+			}
+			l2 := ldataOf(m2)
+			if l2 == nil {
+				return common.Failf("layout-decode-type", "L_Data code %#x followed by %x decoded as %T", c.Code, tail, m2)
+			}
+			if got := fromLibLData(l2); !sameRLData(got, &want) {
+				return common.Failf("layout-decode-trailing", "layout %x followed by the octets %x\n decoded  %+v\n expected %+v (what follows the frame is not part of it)", ref, tail, *got, want)
+			}
+		}
 		// the extracted fields belong to the decoded value, not to the buffer they were read from (the UDP receiver
 		// decodes every datagram out of the same buffer)
 		orig := append([]byte{}, ref...)
